@@ -16,7 +16,7 @@ def check(run):
             run.add_violation('panic', 'TextLayout.ToBytes panicked (a configured width must never make a log call fail): ' +
                               bytes.fromhex(r[3][6:]).decode('utf8', 'replace'), ['family c07', 'case ' + r[0]])
         mism = [r for r in rows if r[3] != r[5] and not r[3].startswith('PANIC')]
-        # property-level oracle on the implementation's text: exactly one line (inputs have control-free headers),
+        # property-level oracle on the implementation's text: exactly one line (level name, file and tag of the generated events are control-free; the context string is arbitrary),
         # and the model (= the proved specification) byte for byte
         multi = []
         for r in rows:
